@@ -23,7 +23,23 @@ import (
 // verify the peer WOULD get an answer.
 func impostor() {
 	_, _, derA := vp.GenCert()
-	certB, keyB, _ := vp.GenCert()
+	certB, keyB, derB := vp.GenCert()
+	if cfg.ImpServeFrom != "" {
+		cb, err1 := os.ReadFile(filepath.Join(cfg.ImpServeFrom, "cert.pem"))
+		kb, err2 := os.ReadFile(filepath.Join(cfg.ImpServeFrom, "key.pem"))
+		if err1 != nil || err2 != nil {
+			fmt.Fprintln(os.Stderr, "impostor: cannot load saved identity", err1, err2)
+			os.Exit(71)
+		}
+		certB, keyB = cb, kb
+	}
+	if cfg.ImpSaveTo != "" {
+		os.WriteFile(filepath.Join(cfg.ImpSaveTo, "cert.pem"), certB, 0o600)
+		os.WriteFile(filepath.Join(cfg.ImpSaveTo, "key.pem"), keyB, 0o600)
+	}
+	if cfg.ImpAnnounceServed {
+		derA = derB
+	}
 	dir := os.Getenv("TMPDIR")
 	sock := filepath.Join(dir, "impostor.sock")
 	os.Remove(sock)
